@@ -138,6 +138,12 @@ def _run_query(obj, q, shared=None):
         return canon(obj.to_ge_polyhedron(q["active"]))
     if k == "flags":
         return [bool(obj.is_tautology), bool(obj.is_contradiction), canon(obj.equation_bounds)]
+    if k == "inspect":
+        # the read-only views of a model
+        return [str(obj.id), canon(obj.bounds), canon(obj.equation_bounds),
+                [str(getattr(v, "id", v)) for v in obj.variables],
+                [[str(v.id), canon(v.bounds)] for v in obj.atomic_propositions],
+                [[type(x).__name__, str(x.id)] for x in obj.compound_propositions]]
     if k == "solve":
         log = []
         res = list(obj.solve([dict(o) for o in q["objs"]], solver=_solver(q["solver"], log), include_virtual_variables=q["virtual"]))
@@ -160,7 +166,7 @@ def _run_query(obj, q, shared=None):
 
 
 MODEL_QUERIES = ["evaluate", "evaluate_propositions", "assume", "reduce", "negate", "errors", "flatten", "to_json", "to_text",
-                 "to_short", "b64_roundtrip", "to_ge_polyhedron", "flags", "solve"]
+                 "to_short", "b64_roundtrip", "to_ge_polyhedron", "flags", "solve", "inspect"]
 CFG_QUERIES = ["ge_polyhedron", "default_prios", "leafs", "select", "add", "ge_polyhedron", "select"]
 
 
